@@ -14,6 +14,11 @@ CHECKS = {
   text="The real Lexer runs under a cursor monitor (every cascade step recorded with cursor before/after and nodes appended) on every concatenation of <=k directive-fragment tokens (exhaustive; k=3 quick, k=4/5 thorough); a trace checker decides conservation (steps tile the source, every consumed character is in a node or is documented vanishing syntax, node positions convert back to their offsets). Rendered output is compared with an independent reference scanner for the literal/escape fragment and with by-construction expected output on random long documents. Termination/time is decided on CPU-time growth ratios of adversarial repetition families measured in child processes.",
   note="Trusted: the harness's own copy of the consumption grammar and reference scanner; time bound is the bounded restatement 'no super-polynomial growth on the listed families up to n=8k'. One open known finding (exponential tag-attribute regex).",
   technique="lexer cursor trace monitor + by-construction render oracle + CPU-time growth monitor"),
+ "C03": dict(
+  category="exploration", design_ref="DESIGN.md §2 C03",
+  text="Dual emission: a random nest of control structures (if/elif/else, for/else over lists/tuples/strings/generators/ranges, while, try/except, with, <% %> blocks with assignments, break/continue/return/raise, def calls, comment-only and empty bodies) is printed as a Mako template under 3 of 4 layouts (indentation of % lines, tight '%if', block margins incl. tabs, CRLF) and as an equivalent Python function that is executed as the oracle; `loop` attributes are recomputed by an independent loop-record class; output or exception type and side effects must agree and Template.code must compile. enable_loop off / re-enabled by <%page> is checked on directed templates.",
+  note="Trusted: CPython executing the dual emission; the generator in checks/c03.py. Not asserted: `loop` inside the else clause of its own loop; `% finally:` (rejected by Mako's control-line analysis and not in the statement).",
+  technique="dual emission differential oracle (template vs equivalent Python) over grammar-generated programs"),
  "C09": dict(
   category="exploration", design_ref="DESIGN.md §2 C09",
   text="Every URI of the stated segment/separator/leading alphabet (exhaustive up to 4 segments quick, 6 thorough) is looked up on real TemplateLookup objects over a fixture tree with canary files at every place a traversal could land, directly and through include/inherit/namespace/Namespace-API calls from callers at depth 0..3; a sys.addaudithook file-access monitor, the realpath of every returned Template.filename and a canary scan of the output decide containment.",
